@@ -396,7 +396,11 @@ func buildDriver(pkg *types.Package, file *ast.File, info *types.Info, src strin
 			fmt.Fprintf(&fns, "\tdefer func() {\n\t\tif r := recover(); r != nil {\n\t\t\tprPanic(r)\n\t\t}\n\t\tprint(\"A\")\n")
 			for _, in := range cs.Inputs {
 				if in.IsRef {
-					fmt.Fprintf(&fns, "\t\t%s(%s, %d)\n", d.printer(in.Type), in.Arg, obsDepth)
+					arg := in.Arg
+					if _, isSl := in.Type.Underlying().(*types.Slice); isSl {
+						arg = fmt.Sprintf("%s[:cap(%s)]", in.Arg, in.Arg)
+					}
+					fmt.Fprintf(&fns, "\t\t%s(%s, %d)\n", d.printer(in.Type), arg, obsDepth)
 				}
 			}
 			fmt.Fprintf(&fns, "\t\tprint(\"\\n\")\n\t\tprGlobals()\n\t}()\n")
